@@ -28,10 +28,11 @@ class Inconclusive(Exception):
 
 
 class Path:
-    __slots__ = ('value', 'pc', 'decisions', 'exc', 'notes')
+    __slots__ = ('value', 'pc', 'decisions', 'exc', 'notes', 'facts')
 
     def __init__(self, value, pc, decisions, exc, notes):
         self.value = value
+        self.facts = sx.path_facts()
         self.pc = pc
         self.decisions = decisions
         self.exc = exc
@@ -76,6 +77,7 @@ class Engine:
         self.pos = 0
         self.pc = []
         self.notes = []
+        self.try_without_pc = True
 
     # ---- driving
     def run(self, fn, catch=(Exception,)):
@@ -92,6 +94,7 @@ class Engine:
                 self.pos = 0
                 self.pc = []
                 self.notes = []
+                sx.reset_path()
                 ENGINE = self
                 val = exc = None
                 try:
@@ -100,7 +103,7 @@ class Engine:
                     continue
                 except catch as e:      # noqa
                     exc = e
-                results.append(Path(val, list(self.pc), list(self.prefix[:self.pos]), exc, list(self.notes)))
+                results.append(Path(val, list(self.pc) + sx.path_defs(), list(self.prefix[:self.pos]), exc, list(self.notes)))
                 STATS.paths += 1
         finally:
             ENGINE = prev
@@ -116,6 +119,8 @@ class Engine:
             for a in sx.const_assumptions():
                 self.solver.add(a)
             for c in self.pc:
+                self.solver.add(c)
+            for c in sx.path_defs():
                 self.solver.add(c)
             for c in extra:
                 self.solver.add(c)
@@ -184,7 +189,7 @@ class Engine:
                 t0 = time.perf_counter()
                 self.solver.push()
                 try:
-                    for a in self.assumptions + sx.const_assumptions() + self.pc + excl:
+                    for a in self.assumptions + sx.const_assumptions() + self.pc + sx.path_defs() + excl:
                         self.solver.add(a)
                     r = self.solver.check()
                     if r == z3.unknown:
@@ -234,6 +239,25 @@ class Engine:
         neg = sx.Not(claim)
         t0 = time.perf_counter()
         s = self.solver
+        usepc = list(pc if pc is not None else self.pc)
+        if usepc and self.try_without_pc:
+            # a claim that is valid without the path condition is valid with it; the
+            # path condition (often nonlinear comparisons) is what slows nlsat down
+            s.push()
+            try:
+                for a in self.assumptions + sx.const_assumptions() + list(extra):
+                    s.add(a)
+                s.add(sx.BoolZ(neg))
+                s.set('timeout', min(self.timeout_ms, 4000))
+                r0 = s.check()
+            finally:
+                s.set('timeout', self.timeout_ms)
+                s.pop()
+                STATS.queries += 1
+            if r0 == z3.unsat:
+                STATS.solver_s += time.perf_counter() - t0
+                STATS.discharged += 1
+                return 'unsat', None
         s.push()
         try:
             for a in self.assumptions + sx.const_assumptions() + list(pc if pc is not None else self.pc) + list(extra):
